@@ -63,6 +63,10 @@ func newRefCtx(strict bool, root any, vars map[string]any, useTZ bool, zone *tim
 	return &refCtx{strict: strict, root: root, vars: vars, useTZ: useTZ, zone: zone, cur: root, lastIdx: noLast, dynLast: noLast, ignoreSE: !strict}
 }
 
+func (c *refCtx) hasQuirk(q string) bool {
+	return c.quirk != "" && strings.Contains(c.quirk, q)
+}
+
 func (c *refCtx) decline(why string) {
 	if c.declined == "" {
 		c.declined = why
@@ -531,6 +535,9 @@ func (c *refCtx) pred(e *Expr) (tv, *refErr) {
 	case KIsUnknown:
 		t, err := c.pred(e.A)
 		if err != nil {
+			if c.hasQuirk("isunknown-swallows-hard-error") {
+				return tvT, nil
+			}
 			return tvU, err
 		}
 		if t == tvU {
@@ -860,7 +867,7 @@ func (c *refCtx) index(s *Expr, v any, k emitFn) *refErr {
 		}
 		for i := from; i <= to; i++ {
 			c.lastIdx = savedLast
-			if arr[i] == nil && c.quirk == "subscript-drops-null" {
+			if arr[i] == nil && c.hasQuirk("subscript-drops-null") {
 				continue
 			}
 			if err := k(arr[i]); err != nil {
